@@ -67,7 +67,18 @@ func (f *mockFactory) connID(t transport.Transport) int {
 
 func (f *mockFactory) Schemes() transport.Schemes { return transport.Schemes{"mock"} }
 func (f *mockFactory) Connect(o *transport.Options) (transport.Transport, error) {
-	return nil, errors.New("not used")
+	f.nconn++
+	t := mock.NewTransport()
+	id := f.nconn
+	t.Block = func(ready func() bool) { f.c.Await(fmt.Sprintf("tr%d.read", id), ready) }
+	t.OnCall = func(call mock.Call) {
+		if call.Op == "close" {
+			f.c.Emit("tr:close:%d", id)
+		}
+	}
+	f.trs = append(f.trs, t)
+	f.c.Emit("cli:connect:%d", id)
+	return t, nil
 }
 func (f *mockFactory) Listen(o *transport.Options) (transport.Acceptor, error) {
 	var k int
@@ -151,6 +162,10 @@ func genC13(rng *rand.Rand) *c13Scenario {
 	var t2 []c13Op
 	nd := rng.Intn(3)
 	for i := 0; i < nd; i++ {
+		if rng.Intn(3) == 0 { // an outgoing connection of the same bootstrap, from a goroutine of its own (Connect returns only after activation)
+			sc.threads = append(sc.threads, []c13Op{{"connect", 0}})
+			continue
+		}
 		t2 = append(t2, c13Op{"dial", rng.Intn(nl)})
 		if rng.Intn(4) == 0 {
 			t2 = append(t2, c13Op{"hangup", 0})
@@ -175,6 +190,9 @@ func genC13(rng *rand.Rand) *c13Scenario {
 	if rng.Intn(5) == 0 { // a listener created after (or while) Shutdown runs
 		t3 = append(t3, c13Op{"listen", nl})
 	}
+	if rng.Intn(6) == 0 { // … or an outgoing connection
+		t3 = append(t3, c13Op{"connect", 0})
+	}
 	sc.threads = append(sc.threads, t3)
 	return sc
 }
@@ -190,6 +208,10 @@ func runC13Scenario(sc *c13Scenario, strat rt.Strategy) *rt.Controller {
 		netty.WithExecutor(ctlExec{c}),
 		netty.WithChannel(netty.NewChannel()),
 		netty.WithChildInitializer(func(ch netty.Channel) {
+			c.Emit("chan:%d:%d", ch.ID(), f.connID(ch.Transport()))
+			ch.Pipeline().AddLast(blockingReader{c}, lifeProbe{c: c, handshake: sc.handshake})
+		}),
+		netty.WithClientInitializer(func(ch netty.Channel) {
 			c.Emit("chan:%d:%d", ch.ID(), f.connID(ch.Transport()))
 			ch.Pipeline().AddLast(blockingReader{c}, lifeProbe{c: c, handshake: sc.handshake})
 		}),
@@ -266,6 +288,10 @@ func runC13Scenario(sc *c13Scenario, strat rt.Strategy) *rt.Controller {
 						c.Emit("dial:%d:%d", k, id)
 					} else {
 						c.Emit("dial:%d:refused", k)
+					}
+				case "connect":
+					if _, err := bs.Connect("mock://c0:1"); err != nil {
+						c.Emit("connect:err")
 					}
 				case "waitdial":
 					n := op.k
